@@ -75,6 +75,9 @@ pub struct Written {
     pub chunks: Vec<ChunkInfo>,
     /// the bytes the format defines for this stream
     pub output: Vec<u8>,
+    /// the largest distance any copy in the stream uses: the dictionary size a container has to
+    /// announce for it (a dictionary smaller than the OUTPUT is fine as long as it covers this)
+    pub need_dict: u64,
 }
 
 #[derive(Debug, Clone, PartialEq, Eq)]
@@ -149,8 +152,18 @@ pub fn write_with(chunks: &[Chunk], allow_bad_ref: bool) -> Result<Written, Writ
                     enc.allow_bad_ref = true;
                     enc.fabricate = Some(0);
                 }
-                enc.push_all(prog)
-                    .map_err(|e| WriteError::Encode(ci, e))?;
+                let mut need = w.need_dict;
+                for sym in prog {
+                    let d = match sym {
+                        Sym::Match { dist, .. } => *dist as u64,
+                        Sym::ShortRep => enc.model.reps[0] as u64 + 1,
+                        Sym::Rep { idx, .. } => enc.model.reps[*idx as usize] as u64 + 1,
+                        _ => 0,
+                    };
+                    need = need.max(d);
+                    enc.push(sym).map_err(|e| WriteError::Encode(ci, e))?;
+                }
+                w.need_dict = need;
                 let (payload, table, _) = enc.finish();
                 let unpacked = hist.len() - before;
                 if unpacked == 0 {
